@@ -575,12 +575,15 @@ impl<TStdlib: Stdlib, TStdIn: Input, TStdOut: Printer, TLpt1: Printer>
                 self.return_marks.clear();
                 self.saved_print_states.clear();
                 // the FOR loops and SELECT CASE blocks that the jump leaves (wherever the
-                // error came from): only those that enclose the label remain
+                // error came from): only those that enclose the label remain, on top
+                // of what the innermost pending GOSUB found (a routine runs on top of
+                // the register frames and selectors of the code that called it)
                 if let Some((for_depth, select_depth)) =
                     ctx.label_depths.get(&resume_label.address())
                 {
-                    self.register_stack.truncate(1 + for_depth);
-                    self.value_stack.truncate(*select_depth);
+                    let (registers, values) = self.go_sub_marks.last().copied().unwrap_or((1, 0));
+                    self.register_stack.truncate(registers + for_depth);
+                    self.value_stack.truncate(values + select_depth);
                 }
             }
             Instruction::Throw(interpreter_error) => {
